@@ -238,7 +238,7 @@ func runC12(c *Ctx) int {
 		return c.replayAPI(mon, 1_000_000)
 	}
 	n := c.Pick(480, 30000)
-	progs := apiPrograms(c.Seed+200, n, []string{"mixed", "buckets", "big", "structural"}, func(i int, cfg *gen.Config) {
+	progs := apiPrograms(c.Seed+200, n, []string{"mixed", "buckets", "big", "structural", "bigkeys"}, func(i int, cfg *gen.Config) {
 		cfg.ROProbe = 0
 		cfg.FailCommit = 0.1
 		if i%2 == 1 {
